@@ -1,6 +1,7 @@
 package props
 
 import (
+	"verifharness/stubs"
 	"verifharness/verif"
 
 	"github.com/pquerna/otp/totp"
@@ -129,6 +130,9 @@ func C02_LoginThenSMSValidate() {
 	for _, a := range f.a {
 		verif.Assume(verif.Implies(verif.And(verif.And(spHas, sp == a.pid), f.preS.Has(sms2fa.SessionSMSSecret)), f.smsSentTo == a.u.SMSPhoneNumber))
 	}
+	if sec, has := f.preS.Lookup2(sms2fa.SessionSMSSecret); has {
+		stubs.OutstandingCodes = []string{sec}
+	}
 	routes := []string{"POST /login", "POST /otp/login", "POST /recover/end", "POST /2fa/sms/validate"}
 	route := routes[verif.Choice("route1", len(routes))]
 	v1 := symbolicValues()
@@ -137,10 +141,16 @@ func C02_LoginThenSMSValidate() {
 	if panicked {
 		return
 	}
-	// ghost update: a code texted by this request replaces the session's code
-	sentTo := f.smsSentTo
+	// ghost update: every phone that was texted the code the session holds now. A text sent by
+	// this request adds its number; if the text is a *new* code the earlier recipients drop out.
+	preSecret, preHasSecret := f.preS.Lookup2(sms2fa.SessionSMSSecret)
+	sentTo := f.smsSentTo     // the recipient the invariant knows about
+	alsoKnownBy := f.smsSentTo // the earlier recipient, if the same code was sent again
+	hasAlso := false
 	if len(f.w.SMS.Sent) > sentBefore {
-		sentTo = f.w.SMS.Sent[len(f.w.SMS.Sent)-1].Number
+		last := f.w.SMS.Sent[len(f.w.SMS.Sent)-1]
+		hasAlso = verif.And(preHasSecret, last.Text == preSecret) // the old code was sent again: its earlier recipient still knows it
+		sentTo = last.Number
 	}
 	f.preS = f.w.Session.Snapshot()
 	v2 := &valuesAlias{}
@@ -156,6 +166,7 @@ func C02_LoginThenSMSValidate() {
 		verif.Witness(issued, "two-step-login-succeeds")
 		verif.KnownRegion("C02-sms-rate-limited-relogin", verif.And(route != "POST /2fa/sms/validate", len(f.w.SMS.Sent) == sentBefore))
 		verif.Assert(verif.Implies(issued, sentTo == a.u.SMSPhoneNumber), "the SMS code that completes a login was texted to that account's registered number")
+		verif.Assert(verif.Implies(verif.And(issued, hasAlso), alsoKnownBy == a.u.SMSPhoneNumber), "the SMS code that completes a login was texted to no other phone")
 	}
 	_ = totp2fa.SessionTOTPPendingPID
 	_ = authboss.SessionKey
